@@ -279,6 +279,9 @@ func VerifC46_v1_header() {
 	case 1:
 		// symbolic source-port token, TCP4 or TCP6
 		port := vrt.Str("port", vrt.Range("portLen", 1, vrt.Param("PL", 5)))
+		// an LF inside the token ends the header line early ("0 2\r\n" makes the conformant line
+		// "PROXY TCP4 1.2.3.4 5.6.7.8 0 2\r\n" followed by application data): not a port token.
+		vrt.Assume(bytes.IndexByte([]byte(port), '\n') < 0)
 		if vrt.Choose("v6", 2) == 1 {
 			line = "PROXY TCP6 2001::1 2001::2 " + port + " 443\r\n"
 			wantSrc, wantDst = v6a, v6b
